@@ -164,6 +164,12 @@ class Observer:
                 self.hist["cause"] = "ServerConnectionError"
             else:
                 self.hist["cause"] = "?" + line
+        # … and a cause delivered to a wormhole that is not yet closing must make it start closing
+        if not self._was_closing and not closing:
+            if line == "welcome 1":
+                self.hist.setdefault("ignored", "welcome error")
+            elif line == "error":
+                self.hist.setdefault("ignored", "server error frame")
         self._was_closing = closing
         if self.at_closed is None and any(n == "closed" for n, v in c.events):
             self.at_closed = dict(server=self.W.server_facts(), connected=c.conn is not None,
